@@ -44,6 +44,32 @@ CLAIMS = {
               "is validated by TLC, with the LCD switched off at every cycle of lines in every mode and with the LCD on outside mode 2."),
         design="5/C17", technique="TLA+ per-cycle explanation predicate + TLC MC of the arming model; TLC trace validation of per-cycle OAM diffs",
         note="Cycles that touch mode 2 at either end are free (the corruption pattern itself is not part of the statement)."),
+    "C18": dict(
+        category="model_checking",
+        text=("APUReg.tla: stored bits per register, the DMG OR-masks, power (clears every register, gates writes), wave RAM as plain memory while channel 3 is off; TLC checks read-back, off-reads-masks, off-ignores-writes and wave-RAM survival "
+              "over registers x values x power toggles. Through the Mapper, random write sequences with power toggles and machine cycles, and every register x every value with sound on and off, are read back; TLC validates every read."),
+        design="5/C18", technique="TLA+ register/mask spec + TLC MC; TLC trace validation of recorded register read-backs",
+        note="Registers start unknown and are pinned by the first read; the NR52 status nibble belongs to C19; wave RAM while channel 3 plays and after an NR34 trigger is not judged."),
+    "C19": dict(
+        category="model_checking",
+        text=("APUStat.tla: frame sequencer, length counters with the extra length clocks, DAC flags, triggers, channel 1's sweep unit, power; on a scaled machine TLC explores all schedules and checks that a status bit turns on only by a "
+              "trigger with the DAC on and off only by DAC/power/expiry/extra clock. On the real APU NR52 is read after every machine cycle (run-length compressed) under random schedules started at every sequencer phase and exact-length "
+              "runs; TLC first infers the sequencer phase from a calibration scenario (all 2048 phases), then validates every write and every run of cycles."),
+        design="5/C19", technique="TLA+ status/length/sweep spec + TLC MC on a scaled model; two-stage TLC trace validation with inferred sequencer phase",
+        note="The scenario defines all length counters and the sequencer step itself (length writes + power cycle first)."),
+    "C20": dict(
+        category="model_checking",
+        text=("APUSamp.tla: sample times follow a 95-clock divider (one re-phasing per epoch tolerated), samples exist only while powered and attached, values are in [0,1) and a side with no routed enabled channel is 0; the scaled divider and the "
+              "mixing operator (silence and independence of unrouted channels over all routings) are model-checked. The real audio unit runs with sample channels drained every cycle under random register schedules; every pair is validated by TLC, "
+              "a half-attached run must emit nothing (under a watchdog), and paired runs differing only in an unrouted channel must give identical samples on the judged side."),
+        design="5/C20", technique="TLA+ sampler spec + TLC MC (scaled) ; TLC trace validation of every emitted sample pair and of paired runs",
+        note="Floats are scaled to integers in the harness (TLA+ has no floats)."),
+    "C21": dict(
+        category="model_checking",
+        text=("APUGen.tla: step periods 4(2048-f), 2(2048-f), d(r)*2^s and the LFSR step function; TLC explores the complete LFSR cycle (32767 states; 127 in 7-bit mode). The cycle numbers at which the duty index, wave position and LFSR change "
+              "(verif hook) are recorded after a trigger for the frequencies / NR43 values of the quantifier and TLC, inferring the phase of the first step, demands exact periodicity and the m-sequence over more than two full periods."),
+        design="5/C21", technique="TLA+ generator spec + TLC exhaustive LFSR cycle; TLC trace validation of recorded generator step times",
+        note="In 7-bit mode only the low seven bits (which determine the output sequence) are compared; s >= 14 is outside the statement."),
     "C22": dict(
         category="model_checking",
         text=("Joypad.tla is model-checked over its complete state space (576 states, all 16 key events and all 256 JOYP writes). "
